@@ -101,6 +101,11 @@ func genCase(t *rapid.T) Case {
 	}
 	episodes := rapid.IntRange(1, 3).Draw(t, "episodes")
 	for ep := 0; ep < episodes; ep++ {
+		if ep > 0 && len(c.Ops) > 0 && c.Ops[len(c.Ops)-1].Kind == "nextindex" && rapid.IntRange(0, 2).Draw(t, "staleequiv") == 0 {
+			for n := rapid.IntRange(1, 2).Draw(t, "nstale"); n > 0; n-- {
+				c.Ops = append(c.Ops, op("stale-equiv"))
+			}
+		}
 		if ep > 0 && len(c.Ops) > 0 && c.Ops[len(c.Ops)-1].Kind == "nextindex" && rapid.IntRange(0, 2).Draw(t, "carry") == 0 {
 			// the new round index goes on with a block of the earlier one (C = 3 selects it): quorums of the
 			// earlier index must not count here, and the commit of a block proposed in index k with the votes
@@ -120,6 +125,30 @@ func genCase(t *rapid.T) Case {
 		np := rapid.IntRange(0, 2).Draw(t, "nprop")
 		for i := 0; i < np; i++ {
 			c.Ops = append(c.Ops, op("propose"))
+		}
+		if rapid.IntRange(0, 7).Draw(t, "bodylate") == 0 {
+			// votes outrun the proposed block: only the priority message is here when the quorums are counted, one
+			// of their senders turns out to be a double voter, then the body arrives and the timer ticks - whatever
+			// the node kept from the first attempt, a commit needs the quorum as it stands now
+			pa, pb := rapid.IntRange(0, 255).Draw(t, "bla"), rapid.IntRange(0, 255).Draw(t, "blb")
+			prio := Op{Kind: "propose", A: pa, B: pb, D: 11} // priority message only
+			body := Op{Kind: "propose", A: pa, B: pb, D: rapid.SampledFrom([]int{10, 0}).Draw(t, "blbody")}
+			c.Ops = append(c.Ops, prio)
+			for _, k := range rapid.SampledFrom([][]int{{1}, {0, 1}, {1, 3}, {0, 1, 3}}).Draw(t, "blkinds") {
+				o := op("votes-until")
+				o.A, o.C, o.D = k, 0, rapid.IntRange(0, 1).Draw(t, "blmode")
+				c.Ops = append(c.Ops, o)
+			}
+			e := op("late-equiv")
+			e.A = 1
+			for n := rapid.IntRange(1, 2).Draw(t, "bln"); n > 0; n-- {
+				c.Ops = append(c.Ops, e)
+				e.B++
+			}
+			c.Ops = append(c.Ops, body, op("step"))
+			if rapid.Bool().Draw(t, "blstep2") {
+				c.Ops = append(c.Ops, op("step"))
+			}
 		}
 		if rapid.IntRange(0, 5).Draw(t, "revoke") == 0 {
 			// quorum, then one of its senders turns out to be a double voter, then the next quorum:
@@ -442,6 +471,56 @@ func crypto3(b byte) common.Hash {
 	return common.BytesToHash([]byte{0xab, b % 3, 0xcd, 1, 2, 3, 4, 5, 6, 7, 8, 9, 10, 11, 12, 13, 14, 15, 16, 17, 18, 19, 20, 21, 22, 23, 24, 25, 26, 27, 28, b % 3})
 }
 
+// evidenceDefect judges what the node's double-vote detector posts by the acceptance rule of the slashing
+// code (staking.processDoubleSignV5): the signer index resolves in the look-back set of the evidence's
+// round, and BOTH signatures verify under that validator's BLS key over (hash, round, round index) as the
+// evidence states them; the two hashes differ. Evidence that fails this rule can never penalise anybody,
+// and the detector's per-sender latch means no second evidence follows.
+func (w *world) evidenceDefect(ev staking.Evidence) string {
+	if ev.Type != staking.EvidenceTypeDoubleSignV5 {
+		return fmt.Sprintf("evidence type %q", ev.Type)
+	}
+	var ds staking.EvidenceDoubleSignV5
+	if err := rlp.DecodeBytes(ev.Data, &ds); err != nil {
+		return "evidence data does not decode: " + err.Error()
+	}
+	if len(ds.Signs) != 2 || ds.Signs[0] == nil || ds.Signs[1] == nil {
+		return "evidence does not carry two signatures"
+	}
+	if ds.Signs[0].Hash == ds.Signs[1].Hash {
+		return "both signatures are for the same block"
+	}
+	set := w.set
+	if ucon.VoteType(ds.VoteType) == ucon.Certificate && w.certSet != nil {
+		set = w.certSet
+	}
+	signer := -1
+	for i := range set.Specs {
+		if uint32(set.Index[i]) == ds.SignerIdx {
+			signer = i
+		}
+	}
+	if signer < 0 {
+		return fmt.Sprintf("signer index %d is not in the look-back set", ds.SignerIdx)
+	}
+	pk, err := uk.PoolKey(set.Specs[signer].Key).BlsSk.PubKey()
+	if err != nil {
+		return err.Error()
+	}
+	for k, si := range ds.Signs {
+		sig, err := uk.BlsMgr.DecSignature(si.Sign)
+		if err != nil {
+			return fmt.Sprintf("signature %d does not decode", k)
+		}
+		if err := pk.Verify(uk.VotePayload(si.Hash, ds.Round, ds.RoundIndex), sig); err != nil {
+			return fmt.Sprintf("evidence names (round %d, index %d, kind %d, signer v%d): signature %d over block %x does not verify for that context (%v) - the votes were cast in another round / round index than the evidence says",
+				ds.Round, ds.RoundIndex, ds.VoteType, signer, k, si.Hash[:4], err)
+		}
+	}
+	w.labels["evidence-usable"] = true
+	return ""
+}
+
 // sendLateVote delivers a precommit for the block committed in the previous round (w.last).
 // variant 0 honest, 3 inflated weight, 4 credential of another step, 11 signature over another block,
 // 12 zero-seat sender claiming one seat. It reports whether the vote is genuine.
@@ -668,6 +747,10 @@ func runCase(c Case) kit.Result {
 				cms = append(cms, e)
 			case staking.Evidence:
 				w.labels["evidence-posted"] = true
+				if why := w.evidenceDefect(e); why != "" {
+					r := fail("detector-evidence-unusable", "the node detected a double vote and posted evidence that the slashing code cannot accept: %s", why)
+					return &r
+				}
 			}
 		}
 		sort.Slice(owns, func(i, j int) bool { return owns[i].kind < owns[j].kind })
@@ -1005,6 +1088,32 @@ func runCase(c Case) kit.Result {
 				if r := process(); r != nil {
 					return *r
 				}
+			}
+		case "stale-equiv":
+			// a sender whose precommit was counted in the PREVIOUS round index of this round precommits another
+			// block for that index, and the vote arrives only now (the detector still has that index's votes)
+			prev := w.prevIdx[w.index-1]
+			var cands []int
+			for s := range prev {
+				if s != 0 {
+					cands = append(cands, s)
+				}
+			}
+			if w.index < 2 || len(cands) == 0 {
+				continue
+			}
+			sort.Ints(cands)
+			sender := cands[op.B%len(cands)]
+			other := w.pickBlock(op.C)
+			if other == prev[sender] {
+				other = crypto3(byte(op.C))
+			}
+			adversarial++
+			w.labels["stale-index-equivocation"] = true
+			w.logf("[%d] deliver (double vote for the previous round index, arriving late):", i)
+			w.sendVote(ucon.Precommit, sender, other, 6)
+			if r := process(); r != nil {
+				return *r
 			}
 		case "late-equiv":
 			// a sender whose vote of this kind has been counted votes another block of the same step later on
